@@ -103,6 +103,13 @@ DistinctMenu == {
   Agg(<<KeyK>>, <<K, V>>, NoE, HAgg(CountStar, ">=", IntV(1)), TRUE, NoLimit, "none")
 }
 
+\* PERCENTILE(e, p) is the element of rank floor(p * n) of the sorted group for every p the grammar accepts -- also fractions of three decimals
+\* (0.666 of three values: rank 1, not 2) and eighths over groups of more than 24 values (p is not a whole number of percents)
+PctIt(pn, pd) == [a |-> "percentile", e |-> V, pn |-> pn, pd |-> pd, as |-> "p", wrap |-> NoE]
+PctFine == {<<666, 1000>>, <<334, 1000>>, <<1, 8>>, <<7, 8>>, <<5, 8>>, <<999, 1000>>, <<1, 1000>>, <<995, 1000>>}
+PercentileFineMenu == {Agg(<<PctIt(f[1], f[2]), CountStar>>, <<>>, NoE, NoH, FALSE, NoLimit, "none") : f \in PctFine}
+                      \cup {Agg(<<KeyK, PctIt(f[1], f[2])>>, <<K>>, NoE, NoH, FALSE, NoLimit, "none") : f \in {<<666, 1000>>, <<334, 1000>>}}
+
 \* C16 over whole rows: DISTINCT and GROUP BY compare tuples column by column -- rows whose outer values are exchanged, rows that hold the
 \* same values in another column order, rows that differ in the middle column only
 SwapK == CaseE(<<<<CmpE("=", K, Lit(A)), Lit(B)>>>>, Lit(A))
@@ -172,6 +179,10 @@ AggMenu ==
         Agg(<<KeyK, CountStar>>, <<K>>, NoE, [h |-> "and", l |-> HAgg(CountStar, ">=", IntV(2)), r |-> HAgg(MaxOfV, ">", IntV(1))], FALSE, NoLimit, "none"),
         Agg(<<KeyK, CountStar>>, <<K>>, NoE, [h |-> "or", l |-> HAgg(CountStar, ">=", IntV(3)), r |-> [h |-> "or", l |-> HAgg(MinOfV, ">", IntV(1)), r |-> HAgg(MaxOfV, "<", IntV(0))]], FALSE, NoLimit, "none"),
         Agg(<<KeyK, SumV>>, <<K>>, NoE, [h |-> "and", l |-> HAgg(MaxOfV, ">=", IntV(1)), r |-> HAgg(SumV, ">", IntV(1))], FALSE, NoLimit, "none"),
+        \* the same aggregate twice in one HAVING (a range), also next to a third one and with the aggregate not selected at all
+        Agg(<<KeyK, CountStar>>, <<K>>, NoE, [h |-> "and", l |-> HAgg(CountStar, ">=", IntV(1)), r |-> HAgg(CountStar, "<=", IntV(1))], FALSE, NoLimit, "none"),
+        Agg(<<KeyK>>, <<K>>, NoE, [h |-> "and", l |-> HAgg(SumV, ">=", IntV(1)), r |-> [h |-> "and", l |-> HAgg(SumV, "<", IntV(3)), r |-> HAgg(MaxOfV, ">=", IntV(1))]], FALSE, NoLimit, "none"),
+        Agg(<<KeyK, MaxOfV>>, <<K>>, NoE, [h |-> "or", l |-> HAgg(MaxOfV, "<", IntV(1)), r |-> HAgg(MaxOfV, ">", IntV(1))], FALSE, NoLimit, "none"),
         \* wrappers whose outer node is a unary minus, NOT or a cast around a deeper arithmetic wrapper; the aggregate deep inside a CASE
         Agg(<<KeyK, [SumV EXCEPT !.wrap = NegE(Arith("+", Col("$value"), One))], [MaxOfV EXCEPT !.wrap = Cast(Arith("*", Col("$value"), Lit(IntV(3))), "text")],
               [CountStar EXCEPT !.wrap = NotE(CmpE(">", Arith("*", Col("$value"), Two), Lit(IntV(2))))], [MinOfV EXCEPT !.wrap = NegE(Col("$value"))]>>, <<K>>, NoE, NoH, FALSE, NoLimit, "none"),
